@@ -13,37 +13,71 @@ Theorem C07_tables_only_under_lock : forall f, In f entry_points ->
 Proof. exact (cfg_ok_sound gen_program gen_cfg_ok). Qed.
 
 Section Protocol.
-  Context {E X D C R : Type}.
+  Context {E X D C R I K : Type}.
   Variable api : D -> C -> D * R.
   Variable closed_result : C -> R.
+  Variable pre : I -> list (@msg E X).
+  Variable hnd : D -> I -> D * list (@msg E X).
+  Variable env : D -> K -> option D.
+  Notation cstate := (@cstate E X D C R I K).
+  Notation reachable := (reachable api closed_result pre hnd env).
+  Notation crun := (crun api closed_result pre hnd env).
+  Notation cstep := (cstep api closed_result pre hnd env).
+  Notation reader_step := (reader_step pre hnd).
 
   (* at most one goroutine is inside a critical section *)
-  Theorem C07_mutual_exclusion : forall cap cf d (s : @cstate E X D C R),
-    reachable api closed_result cap cf d s ->
+  Theorem C07_mutual_exclusion : forall cap cf d (s : cstate),
+    reachable cap cf d s ->
     (forall t1 t2, mu s = Some t1 -> mu s = Some t2 -> t1 = t2) /\
     (forall t1 t2 p1 p2, thr s !! t1 = Some p1 -> thr s !! t2 = Some p2 ->
                          thread_in_cs p1 = true -> thread_in_cs p2 = true -> t1 = t2) /\
     (forall t p, thr s !! t = Some p -> thread_in_cs p = true -> reader_in_cs (rd s) = false).
-  Proof. exact (mutual_exclusion api closed_result). Qed.
+  Proof. exact (mutual_exclusion api closed_result pre hnd env). Qed.
 
-  (* the results of all API calls of any concurrent execution are those of running them one after another, in the order
-     of their critical sections, on the sequential semantics [api] (= Watcher.v's add / remove / list) *)
-  Theorem C07_linearizable : forall cap cf d ls (s : @cstate E X D C R),
-    crun api closed_result cap cf (cinit d) ls = Some s ->
-    seq_run api d (lin s) = Some (data s) /\ seq_results_ok api d (lin s).
-  Proof. exact (linearizable api closed_result). Qed.
+  (* everything that touches the shared tables — the critical sections of API calls, the reader's critical section
+     (handleEvent) and the kernel-side steps — is recorded in lin in the order it happened; replaying lin one entry after
+     another on the sequential semantics ([api], [hnd], [env] = System.sys_step, see ConcSystem.v) from the initial data
+     yields the current data, and every recorded API result / message list is what the sequential semantics returns at
+     that point of the replay *)
+  Theorem C07_linearizable : forall cap cf d ls (s : cstate),
+    crun cap cf (cinit d) ls = Some s ->
+    seq_run api hnd env d (lin s) = Some (data s) /\ seq_results_ok api hnd env d (lin s).
+  Proof. exact (linearizable api closed_result pre hnd env). Qed.
 
-  (* … and that order respects real time: a call takes effect at one step between its invocation and its return *)
-  Theorem C07_linearisation_point : forall cap cf (s s' : @cstate E X D C R) l,
-    cstep api closed_result cap cf s l = Some s' -> lin s' <> lin s -> exists t c, l = LThr t /\ thr s !! t = Some (CInCs c).
-  Proof. exact (fun cap cf s s' l => lin_only_in_cs api closed_result cap cf s l s'). Qed.
+  (* … and that order respects real time: a call takes effect at one step between its invocation and its return; lin
+     (and the data) change only in a critical-section step — of a caller or of the reader — or in a kernel-side step *)
+  Theorem C07_linearisation_point : forall cap cf (s s' : cstate) l,
+    cstep cap cf s l = Some s' -> lin s' <> lin s ->
+    (exists t c, l = LThr t /\ t <> reader_tid /\ thr s !! t = Some (CInCs c)) \/
+    (exists it rest, l = LThr reader_tid /\ rd s = RInCs it rest) \/
+    (exists k, l = LEnv k).
+  Proof. exact (fun cap cf s s' l => lin_only_in_cs api closed_result pre hnd env cap cf s l s'). Qed.
+  Theorem C07_data_changes_only_there : forall cap cf (s s' : cstate) l,
+    cstep cap cf s l = Some s' -> data s' <> data s ->
+    (exists t c, l = LThr t /\ t <> reader_tid /\ thr s !! t = Some (CInCs c)) \/
+    (exists it rest, l = LThr reader_tid /\ rd s = RInCs it rest) \/
+    (exists k, l = LEnv k).
+  Proof. exact (fun cap cf s s' l => data_only_in_cs api closed_result pre hnd env cap cf s l s'). Qed.
+  Theorem C07_call_takes_effect_once : forall cap cf (s : cstate) t c s',
+    t <> reader_tid -> thr s !! t = Some (CInCs c) -> cstep cap cf s (LThr t) = Some s' ->
+    exists r, thr s' !! t = Some (CDone r) /\ lin s' = lin s ++ [LinCall c r] /\ api (data s) c = (data s', r) /\ mu s' = None.
+  Proof. exact (lin_point api closed_result pre hnd env). Qed.
+  Theorem C07_handle_takes_effect_once : forall cap cf (s : cstate) it rest s',
+    rd s = RInCs it rest -> cstep cap cf s (LThr reader_tid) = Some s' ->
+    exists post, lin s' = lin s ++ [LinHandle it post] /\ hnd (data s) it = (data s', post) /\
+                 (rd s' = RPost post rest /\ mu s' = None \/
+                  rd s' = RCsSend (err_msgs post) (ev_msgs post) rest /\ mu s' = mu s /\ cf_send_in_cs cf = true).
+  Proof. exact (lin_point_reader api closed_result pre hnd env). Qed.
 
   (* no panic, and nobody inside a critical section is ever blocked (no deadlock through the mutex) *)
-  Theorem C07_no_panic : forall cap cf d (s : @cstate E X D C R), reachable api closed_result cap cf d s -> panicked s = false.
-  Proof. exact (no_panic api closed_result). Qed.
-  Theorem C07_holder_never_blocked : forall cap cf (s : @cstate E X D C R) t p,
-    t <> reader_tid -> thr s !! t = Some p -> thread_in_cs p = true -> is_Some (cstep api closed_result cap cf s (LThr t)).
-  Proof. exact (cs_thread_not_blocked api closed_result). Qed.
+  Theorem C07_no_panic : forall cap cf d (s : cstate), reachable cap cf d s -> panicked s = false.
+  Proof. exact (no_panic api closed_result pre hnd env). Qed.
+  Theorem C07_holder_never_blocked : forall cap cf (s : cstate) t p,
+    t <> reader_tid -> thr s !! t = Some p -> thread_in_cs p = true -> is_Some (cstep cap cf s (LThr t)).
+  Proof. exact (cs_thread_not_blocked api closed_result pre hnd env). Qed.
+  Theorem C07_reader_in_cs_never_blocked : forall cap cf (s : cstate) it rest,
+    rd s = RInCs it rest -> is_Some (cstep cap cf s (LThr reader_tid)).
+  Proof. exact (cs_reader_not_blocked api closed_result pre hnd env). Qed.
 End Protocol.
 
 (* the sequential consequence quoted in the property: of two Removes of one listed path the second reports
@@ -60,6 +94,10 @@ Print Assumptions C07_tables_only_under_lock.
 Print Assumptions C07_mutual_exclusion.
 Print Assumptions C07_linearizable.
 Print Assumptions C07_linearisation_point.
+Print Assumptions C07_data_changes_only_there.
+Print Assumptions C07_call_takes_effect_once.
+Print Assumptions C07_handle_takes_effect_once.
+Print Assumptions C07_reader_in_cs_never_blocked.
 Print Assumptions C07_no_panic.
 Print Assumptions C07_holder_never_blocked.
 Print Assumptions C07_two_removes_one_wins.
